@@ -134,6 +134,7 @@ def enumerate_cases(tier):
                             continue
                         yield {"kind": "node", "ntype": ntype, "site": site, "components": comp, "image": image,
                                "mgmt": mgmt}
+    yield from _rehome_cases()
     for t in PINNED_SERVICE:
         for n in range(0, 5):
             if t == "PortMirror" and n != 1:
@@ -160,6 +161,18 @@ def enumerate_cases(tier):
                                                                         "props": []}]}
 
 
+def _rehome_cases():
+    """the service is first attached to interfaces in ANOTHER site, completely disconnected, then attached to the
+    interfaces described: the verdict must be the one of the final topology (a declared site stays declared)"""
+    for t in PINNED_SERVICE:
+        if t == "PortMirror":
+            continue
+        for n in (1, 2):
+            for declared in ("match", "other", None):
+                yield {"kind": "svc", "services": [{"type": t, "ifs": [["DedicatedPort", 0]] * n, "declared": declared,
+                                                    "props": [], "rehome": True}]}
+
+
 @st.composite
 def _multi(draw):
     svcs = []
@@ -167,6 +180,7 @@ def _multi(draw):
         t = draw(st.sampled_from([x for x in PINNED_SERVICE if x != "PortMirror"] + ["PortMirror"]))
         n = 1 if t == "PortMirror" else draw(st.integers(0, 4))
         svcs.append({"type": t, "late": 0 if t == "PortMirror" else draw(st.sampled_from([0, 0, 1, 2])),
+                     "rehome": t != "PortMirror" and draw(st.integers(0, 3)) == 0,
                      "ifs": [[draw(st.sampled_from(KINDS)), draw(st.integers(0, 2))] for _ in range(n)],
                      "declared": draw(st.sampled_from([None, None, "match", "other"])),
                      "props": draw(st.lists(st.sampled_from(PROPS), unique=True, max_size=2))})
@@ -294,8 +308,16 @@ def run_case(case):
             before = it.snap()
             guard = svc["type"] == "L2PTP" and any(k == "SharedPort" for k, _ in svc["ifs"])
             late = min(int(svc.get("late") or 0), len(ifs))
+            pre_ifs = []
+            if svc.get("rehome") and ifs and not guard:
+                # first home: as many dedicated ports in a site none of the final interfaces uses (if there is one)
+                used = {s_ for _, s_ in svc["ifs"]}
+                other_site = next((i for i in range(3) if i not in used), (svc["ifs"][0][1] + 1) % 3)
+                pre_ifs = [mk_interface("DedicatedPort", other_site) for _ in range(min(2, len(ifs)))]
+                late = len(ifs)
+                labels.add("rehomed")
             late_ifs = ifs[len(ifs) - late:] if late else []
-            ifs = ifs[:len(ifs) - late] if late else ifs
+            ifs = pre_ifs if pre_ifs else (ifs[:len(ifs) - late] if late else ifs)
             refused_late = False
             try:
                 if svc["type"] == "PortMirror":
@@ -307,6 +329,8 @@ def run_case(case):
                 else:
                     s = t.add_network_service(name=f"svc{si}", nstype=ServiceType[svc["type"]], interfaces=ifs,
                                               site=declared, **kw)
+                    for pi_ in pre_ifs:
+                        s.disconnect_interface(pi_)
                     for li in late_ifs:
                         mid = it.snap()
                         try:
@@ -328,10 +352,11 @@ def run_case(case):
                     if late_ifs:
                         labels.add("late-connect")
                 created = True
-            except TopologyException as e:
+            except Exception as e:
                 created = False
-                if not guard:
-                    v.append((f"C10/{svc['type']}/create/raised", f"service creation raised {e} | {svc}"))
+                if not guard or not isinstance(e, TopologyException):
+                    v.append((f"C10/{svc['type']}/create/raised", f"building the service raised {type(e).__name__}: {e} "
+                                                                  f"| {svc}"))
                 elif it.snap().canon() != before.canon():
                     v.append((f"C10/{svc['type']}/guardrail/model-changed", f"refused connection left changes | {svc}"))
             if guard and created and not refused_late:
